@@ -30,6 +30,7 @@ class Func:
     def __init__(self, name, header, lines):
         self.name, self.header = name, header
         self.types = {}
+        self.debug = {}    # local -> source name (from `debug x => _N;`)
         self.blocks = {}   # bb -> (statements [str], terminator str)
         self.order = []
         for m in re.finditer(r'(_\d+): ([^,()]+(?:\([^()]*\))?[^,()]*)', header.split('->')[0]):
@@ -53,6 +54,10 @@ class Func:
         cur_bb = None
         for ln in lines:
             s = ln.strip()
+            m = re.match(r'debug (\w+) => (_\d+);$', s)
+            if m and cur_bb is None:
+                self.debug[m.group(2)] = m.group(1)
+                continue
             m = re.match(r'let (?:mut )?(_\d+): (.*);$', s)
             if m and cur_bb is None:
                 self.types[m.group(1)] = m.group(2)
@@ -119,6 +124,17 @@ class Slice:
             elif t.startswith('std::result::Result<'): self.add(loc + '.t', 'Int')     # 0 = Ok, 1 = Err
             elif re.fullmatch(r'&mut std::ops::Range<(i32|usize)>', t): pass
         self.add('exh', 'Bool')
+        # named integer constants (e.g. `const state::newton::MAX_ITER` as a range bound): one rigid symbol per name, carried
+        # unchanged through every rule (the value is not needed: the claim holds for every value)
+        self.named = set()
+        for bb, sts in func.blocks.items():
+            for st_ in sts:
+                for nm in re.findall(r'const (?:[\w<>]+::)*([A-Z][A-Z0-9_]*)\b(?!_)', st_):
+                    if re.search(r'Range::<\w+> \{[^}]*const (?:[\w<>]+::)*' + nm + r'\b', st_) or re.search(r'(?:Lt|Le|Gt|Ge|Eq|Ne|Add|Sub)\([^)]*const (?:[\w<>]+::)*' + nm + r'\b', st_):
+                        self.named.add(nm)
+        for nm in sorted(self.named):
+            self.add('K_' + nm, 'Int')
+            self.informative.add('K_' + nm)
         self.refs = {}     # &mut Range local -> range local (syntactic, per function)
         for bb, sts in func.blocks.items():
             for s in sts:
@@ -176,6 +192,8 @@ class Slice:
             return ('(- %d)' % -v if v < 0 else str(v)), 'Int'
         m = re.fullmatch(r'const (true|false)', op)
         if m: return m.group(1), 'Bool'
+        m = re.fullmatch(r'const (?:[\w<>]+::)*([A-Z][A-Z0-9_]*)', op)
+        if m and ('K_' + m.group(1)) in self.sort: return st['K_' + m.group(1)], 'Int'
         return None
 
     def havoc(self, st, loc):
@@ -212,14 +230,16 @@ class Slice:
             return
         # aggregates
         m2 = re.fullmatch(r'std::ops::Range::<\w+> \{ start: (.*), end: (.*) \}', rv)
-        if m2 and (dst + '.s') in self.sort:
+        if m2 and ((dst + '.s') in self.sort or (dst + '.e') in self.sort):
             a, b = self.operand(m2.group(1), st), self.operand(m2.group(2), st)
-            st[dst + '.s'] = a[0] if a else self.newvar('Int')
-            st[dst + '.e'] = b[0] if b else self.newvar('Int')
+            if (dst + '.s') in self.sort: st[dst + '.s'] = a[0] if a else self.newvar('Int')
+            if (dst + '.e') in self.sort: st[dst + '.e'] = b[0] if b else self.newvar('Int')
             return
         m2 = re.fullmatch(r'(?:copy |move )(_\d+)', rv)
         if m2 and (dst + '.s') in self.sort and (m2.group(1) + '.s') in self.sort:
-            st[dst + '.s'] = st[m2.group(1) + '.s']; st[dst + '.e'] = st[m2.group(1) + '.e']; return
+            for q in ('.s', '.e'):
+                if (dst + q) in self.sort: st[dst + q] = st[m2.group(1) + q] if (m2.group(1) + q) in self.sort else self.newvar('Int')
+            return
         m2 = re.fullmatch(r'(AddWithOverflow|SubWithOverflow)\((.*), (.*)\)', rv)
         if m2 and (dst + '.v') in self.sort:
             a, b = self.operand(m2.group(2), st), self.operand(m2.group(3), st)
@@ -323,16 +343,21 @@ class Slice:
                     mi = re.match(r'<std::ops::Range<\w+> as IntoIterator>::into_iter\((?:copy |move )?(_\d+)\)', call)
                     if mm and mm.group(1) in self.refs and (dst + '.t') in self.sort:
                         r = self.refs[mm.group(1)]
-                        s_, e_ = st[r + '.s'], st[r + '.e']
+                        s_ = st[r + '.s'] if (r + '.s') in st else self.newvar('Int')
+                        e_ = st[r + '.e'] if (r + '.e') in st else self.newvar('Int')   # pruned bound: unknown
                         # Some branch
                         self.informative.update([dst + '.t', dst + '.v', r + '.s', r + '.e'])
-                        a = dict(st); a[dst + '.t'] = '1'; a[dst + '.v'] = s_; a[r + '.s'] = '(+ %s 1)' % s_
+                        a = dict(st); a[dst + '.t'] = '1'
+                        if (dst + '.v') in self.sort: a[dst + '.v'] = s_
+                        if (r + '.s') in self.sort: a[r + '.s'] = '(+ %s 1)' % s_
                         rules.append(('(and %s (< %s %s))' % (pre, s_, e_), tgt, a))
-                        b = dict(st); b[dst + '.t'] = '0'; b[dst + '.v'] = self.newvar('Int')
+                        b = dict(st); b[dst + '.t'] = '0'
+                        if (dst + '.v') in self.sort: b[dst + '.v'] = self.newvar('Int')
                         rules.append(('(and %s (>= %s %s))' % (pre, s_, e_), tgt, b))
                     elif mi and (dst + '.s') in self.sort and (mi.group(1) + '.s') in self.sort:
                         self.informative.update([dst + '.s', dst + '.e'])
-                        st2[dst + '.s'] = st[mi.group(1) + '.s']; st2[dst + '.e'] = st[mi.group(1) + '.e']
+                        for q in ('.s', '.e'):
+                            if (dst + q) in self.sort: st2[dst + q] = st[mi.group(1) + q] if (mi.group(1) + q) in st else self.newvar('Int')
                         rules.append((pre, tgt, st2))
                     elif 'FromResidual' in call and (dst + '.t') in self.sort:
                         st2[dst + '.t'] = '1'
